@@ -1,7 +1,7 @@
 #!/bin/bash
 # usage: try_seed.sh <seed-id> <property> [tier]   -- apply a seeded mutant to /repo, run a check, undo
 cd /verif
-if ! git -C /repo apply --3way /verif/seeded/$1/patch.diff 2>/tmp/apply.err; then echo "PATCH DOES NOT APPLY: $(head -2 /tmp/apply.err)"; git -C /repo checkout -- . ; exit 3; fi
+if ! git -C /repo apply /verif/seeded/$1/patch.diff 2>/tmp/apply.err; then echo "PATCH DOES NOT APPLY: $(head -2 /tmp/apply.err)"; git -C /repo reset -q --hard HEAD; exit 3; fi
 git -C /repo reset -q
 bin/vp check $2 ${3:-quick} > /tmp/seed_$1_$2.out 2>&1; rc=$?
 grep -E "^VIOLATION|^KNOWN" /tmp/seed_$1_$2.out | cut -c1-200
